@@ -25,6 +25,12 @@ def gen_handlers(rng):
     n = rng.choice([0, 1, 2, 3, 4, 5, 6, 8, 12])
     nphys = rng.randint(1, 5)
     phys = rng.sample(PHYS, min(nphys, len(PHYS)))
+    if rng.random() < 0.1:
+        # a machine full of devices: many handlers at many physical locations, each location revisited late in the list
+        # (seed C20-11: a grouping that keeps pointers into a slice loses handlers once the slice grows past its capacity)
+        n = rng.choice([12, 20, 33, 48, 70])
+        nphys = rng.randint(6, n)
+        phys = (PHYS + ["usb-0000:00:1a.0-1.%d/input%d" % (k // 2, k % 2) for k in range(n)])[:nphys]
     hs = []
     for i in range(n):
         caps = list(rng.choice(ROWS))
